@@ -2,6 +2,7 @@ package sym
 
 import (
 	"crypto/sha256"
+	"path/filepath"
 	"fmt"
 	"go/types"
 	"math/big"
@@ -109,6 +110,21 @@ func init() {
 		"sync/atomic.CompareAndSwapUint32": inAtomicCAS,
 		"sync/atomic.CompareAndSwapUint64": inAtomicCAS,
 
+		"path/filepath.Join": inFilepathJoin,
+		"os.Remove":          func(ex *Exec, c *callCtx) (Value, bool) { return Iface{}, true },
+		"internal/bytealg.MakeNoZero": func(ex *Exec, c *callCtx) (Value, bool) {
+			n, ok := ex.concretize(c.s, c.args[0].(*Term), ex.lim.MaxAlloc*64, c.pend)
+			if !ok {
+				return nil, false
+			}
+			arr := make(Agg, n)
+			for i := range arr {
+				arr[i] = ex.tt.BV(0, 8)
+			}
+			obj := c.s.alloc(arr)
+			ln := ex.tt.BV(uint64(n), 64)
+			return Slice{Base: Ptr{Obj: obj}, Off: ex.tt.BV(0, 64), Len: ln, Cap: ln}, true
+		},
 		"fmt.Errorf":  inErrorf,
 		"fmt.Sprintf": inSprintf,
 		"fmt.Sprint":  inSprintf,
@@ -875,7 +891,15 @@ func inSprintf(ex *Exec, c *callCtx) (Value, bool) {
 		switch v := ifc.V.(type) {
 		case *Term:
 			if !v.IsConst() {
-				return ex.strConst("<fmt:" + format + ">"), true
+				if v.W == 0 {
+					return ex.strConst("<fmt:" + format + ">"), true
+				}
+				// case-split a symbolic integer into its feasible values (e.g. chunk ids)
+				cv, ok := ex.concretizeAny(c.s, v, c.pend)
+				if !ok {
+					return nil, false
+				}
+				v = ex.tt.BV(cv, v.W)
 			}
 			if v.W == 0 {
 				goArgs = append(goArgs, v.IsTrue())
@@ -898,6 +922,22 @@ func inSprintf(ex *Exec, c *callCtx) (Value, bool) {
 		return ex.strConst(fmt.Sprintf(format, goArgs...)), true
 	}
 	return ex.strConst(fmt.Sprint(goArgs...)), true
+}
+
+func inFilepathJoin(ex *Exec, c *callCtx) (Value, bool) {
+	var parts []string
+	for _, a := range ex.variadicArgs(c.s, c.args[0]) {
+		st, ok := a.(Str)
+		if !ok {
+			unsupported("filepath.Join argument")
+		}
+		cs, ok := strConcrete(st)
+		if !ok {
+			unsupported("filepath.Join with symbolic string")
+		}
+		parts = append(parts, cs)
+	}
+	return ex.strConst(filepath.Join(parts...)), true
 }
 
 func inErrorsIs(ex *Exec, c *callCtx) (Value, bool) {
